@@ -299,7 +299,7 @@ class Ctx:
         cmd += ['-cp', cp, 'tlc2.TLC']
         return cmd
 
-    def check_model(self, specdir, module, cfg, what, label=None, vacuity_exempt=(), **kw):
+    def check_model(self, specdir, module, cfg, what, label=None, vacuity_exempt=(), required=None, **kw):
         """E1: run TLC; a violated invariant/property is a property violation of the DESIGN
         (reported with the counterexample as replay file).  Also fails on vacuity: an action that
         was never taken (unless exempted)."""
@@ -309,8 +309,11 @@ class Ctx:
                                     'TLC %s on %s/%s\n\n%s' % (res.violation, module, cfg, res.counterexample()))
             self.violation('model:%s:%s:%s' % (module, cfg, res.violation), what + ': ' + res.violation, path)
         else:
-            dead = [a for a, (d, g) in res.actions.items() if g == 0 and a not in vacuity_exempt
-                    and a not in ('Init',)]
+            if required is not None:
+                dead = [a for a in required if res.actions.get(a, (0, 0))[1] == 0]
+            else:
+                dead = [a for a, (d, g) in res.actions.items() if g == 0 and a not in vacuity_exempt
+                        and a not in ('Init',)]
             if dead:
                 raise ToolError('vacuous model run %s/%s: actions never taken: %s' % (module, cfg, dead))
         return res
